@@ -333,6 +333,14 @@ func c20Run(c *core.Ctx, dir string, sc c20Scenario, only *c20Case) {
 			s.DidOpen(uriOf(from), cur[from].Render().Text)
 			s.DidOpen(uriOf(ef), disk[ef].Render().Text)
 			s.DidOpen(uriOf(second), disk[second].Render().Text)
+			// the hovered document is asked once before the edits arrive: whatever a
+			// hover keeps for later use is then built from the superseded texts
+			s.Call("textDocument/hover", wire.DocPos(uriOf(from), 0, 0))
+			for _, sp := range cur[from].Render().Spans {
+				if sp.Kind == "account" || sp.Kind == "payee" || sp.Kind == "tagname" {
+					s.Call("textDocument/hover", wire.DocPos(uriOf(from), sp.Line, sp.U0))
+				}
+			}
 			s.DidChangeFull(uriOf(ef), cur[ef].Render().Text, 2)
 			s.DidChangeFull(uriOf(second), cur[second].Render().Text, 2)
 			kept = true
